@@ -363,8 +363,25 @@ def check_dalitz(chk, rng, n_events: int, cache=None, stats=None) -> list[dict]:
                 continue
             chain, h, o = iso[0]
             i, j = h[0], o[0]  # topology ids, i < j
-            pair = {(0, 1): (1, 2), (1, 2): (2, 3), (0, 2): (3, 1)}[(i, j)]
-            _, formula = formulate_scattering_angle(*pair)
+            # both ordered DPD pairs of the isobar: theta_ab describes particle a, theta_ba = pi - theta_ab
+            for pair in ((i + 1, j + 1), (j + 1, i + 1)):
+                bad += _check_dalitz_pair(chk, pair, kind, top, real, masses, momenta, h, chain, stats)
+    return bad
+
+
+def _check_dalitz_pair(chk, pair, kind, top, real, masses, momenta, h, chain, stats) -> list[dict]:
+    import sympy as sp
+
+    from ampform.kinematics.angles import formulate_scattering_angle
+
+    bad: list[dict] = []
+    if True:
+        if True:
+            try:
+                _, formula = formulate_scattering_angle(*pair)
+            except NotImplementedError:
+                stats.setdefault("dalitz_pairs_not_implemented", []).append(list(pair))
+                return bad
             syms = sorted(formula.free_symbols, key=lambda s: s.name)
             f = sp.lambdify(syms, formula.doit(), "numpy")
 
@@ -379,7 +396,9 @@ def check_dalitz(chk, rng, n_events: int, cache=None, stats=None) -> list[dict]:
             with np.errstate(all="ignore"):
                 closed = np.asarray(f(*args), dtype=complex).real
             hel = np.asarray(real["theta" + PySpec.name_suffix(h[1], chain)], dtype=float)
-            expect = closed if pair != (3, 1) else math.pi - closed
+            # the helicity angle symbol is that of the helicity child (smaller topology id h[1]);
+            # theta_ab is the angle of DPD particle a = topology id a-1
+            expect = closed if pair[0] - 1 == h[0] else math.pi - closed
             # conditioning: acos near ±1 and the mass route (masses recomputed from momenta)
             sin_t = np.abs(np.sin(hel))
             e_scale = np.asarray(sum(momenta.values())[:, 0])
